@@ -43,7 +43,7 @@ class ReplayDiverged(Exception):
 class SimThread:
     __slots__ = ('index', 'thread', 'gate', 'state', 'join_target', 'deadline', 'wake_at', 'pending_exc',
                  'pending_delay', 'events', 'ident', 'budget', 'priority', 'frozen_until', 'blocked_on',
-                 'async_landed', 'name', 'op_born', 'zombie')
+                 'async_landed', 'name', 'op_born', 'zombie', 'done_at')
 
     def __init__(self, index, thread):
         self.index = index
@@ -66,6 +66,7 @@ class SimThread:
         self.name = 'T%d' % index
         self.op_born = None
         self.zombie = False
+        self.done_at = None
 
 
 class Scheduler:
@@ -335,6 +336,7 @@ class Scheduler:
 
     def thread_end(self, st):
         st.state = 'done'
+        st.done_at = world.CLOCK.now
         nxt = self.pick(None)
         if nxt is None:
             self.deadlock = True
@@ -366,6 +368,8 @@ class Scheduler:
         self.joins += 1
         if target.state == 'done':
             return
+        if timeout is not None and 'first_timed_join_at' not in self.probe:
+            self.probe['first_timed_join_at'] = world.CLOCK.now - 1_000_000.0
         me.state = 'join_wait'
         me.join_target = target
         me.deadline = None if timeout is None else world.CLOCK.now + max(0.0, timeout)
